@@ -100,16 +100,22 @@ class WrappedField:
             result = get_type_hints(self.clazz.clazz)[self.field.name]
             return result
         except NameError as e:
-            # Build a complete namespace with ALL classes from the class diagram
-            local_namespace = {
+            # The classes of the class diagram by name, to look up names the module cannot resolve
+            diagram_classes = {
                 cls.clazz.__name__: cls.clazz
                 for cls in self.clazz._class_diagram.wrapped_classes
             }
+            # Only the missing names go into the local namespace: it takes precedence over the globals of
+            # the module, so a diagram class must not shadow a class of the same name that the module
+            # resolves itself.
             # A class may refer to several classes that its module only imports under TYPE_CHECKING:
             # add the missing names one after the other until all hints can be evaluated
+            local_namespace = {}
             missing_name = e.name
             while True:
-                if missing_name not in local_namespace:
+                if missing_name in diagram_classes:
+                    local_namespace[missing_name] = diagram_classes[missing_name]
+                else:
                     # not in the class diagram, try to find it in the modules
                     local_namespace[missing_name] = manually_search_for_class_name(
                         missing_name
